@@ -6,6 +6,7 @@ C functions, one Lean function per C function, same order of steps.
 -/
 import SkinnyVerif.Basic.Bytes
 import SkinnyVerif.Impl.Ops
+import SkinnyVerif.Impl.Guards
 
 namespace SkinnyVerif.Impl
 
@@ -89,43 +90,40 @@ def setKeyInner (o : SkinnyOps b h) (p : SkinnyParams) (ks : KeySched h) (key : 
       let ks := setTkN o false ks key p.bs junk2
       setTkN o true ks (key.drop p.bs) (keySize - p.bs) junk3
 
-/-- `skinnyN_set_key` on a non-null schedule; `key = none` models a null key pointer -/
-def setKey (o : SkinnyOps b h) (p : SkinnyParams) (ks : KeySched h) (key : Option Bytes) (size : Nat)
+/-- `skinnyN_set_key` on a non-null schedule; `key = none` models a null key pointer.  The
+validation is the guard read off the C source; `size` is the C `unsigned` (taken mod 2^32). -/
+def setKey (o : SkinnyOps b h) (g : SkinnyGuards) (p : SkinnyParams) (ks : KeySched h) (key : Option Bytes) (size : Nat)
     (junk2 junk3 : BitVec b) : Nat × KeySched h :=
-  match key with
-  | none => (0, ks)
-  | some k =>
-    if size < p.bs ∨ size > 3 * p.bs then (0, ks)
-    else (1, setKeyInner o p ks k size none junk2 junk3)
+  if g.setKey false key.isNone (BitVec.ofNat 32 size) then (0, ks)
+  else match key with
+    | none => (0, ks)
+    | some k => (1, setKeyInner o p ks k size none junk2 junk3)
 
 /-- `skinnyN_set_tweaked_key` -/
-def setTweakedKey (o : SkinnyOps b h) (p : SkinnyParams) (tk : TweakedKey h) (key : Option Bytes) (size : Nat)
+def setTweakedKey (o : SkinnyOps b h) (g : SkinnyGuards) (p : SkinnyParams) (tk : TweakedKey h) (key : Option Bytes) (size : Nat)
     (junk2 junk3 : BitVec b) : Nat × TweakedKey h :=
-  match key with
-  | none => (0, tk)
-  | some k =>
-    if size < p.bs ∨ size > 2 * p.bs then (0, tk)
-    else
+  if g.setTweakedKey false key.isNone (BitVec.ofNat 32 size) then (0, tk)
+  else match key with
+    | none => (0, tk)
+    | some k =>
       let tw := zeros p.bs
       (1, { ks := setKeyInner o p tk.ks k size (some tw) junk2 junk3, tweak := tw })
 
-/-- `skinnyN_set_tweak`; `tweak = none` models a null pointer, `nullOk` says whether the C
-code tests for it (read off the source by the translator's facts pass) -/
-def setTweak (o : SkinnyOps b h) (p : SkinnyParams) (nullOk : Bool) (tk : TweakedKey h) (tweak : Option Bytes)
-    (size : Nat) : Except Fault (Nat × TweakedKey h) :=
-  if size < 1 ∨ size > p.bs then .ok (0, tk)
+/-- the tweak bytes a `set_tweak` call stores: `tweak_size` bytes then zeros; all zeros for NULL -/
+def tweakBytes (bs : Nat) (tweak : Option Bytes) (size : Nat) : Bytes :=
+  match tweak with
+  | none => zeros bs
+  | some t => padRight bs (t.take size)
+
+/-- `skinnyN_set_tweak`; `tweak = none` models a null pointer (documented: the all-zero tweak).
+The C code copies `tweak_size` bytes and zero-fills the rest, or zero-fills everything for NULL. -/
+def setTweak (o : SkinnyOps b h) (g : SkinnyGuards) (p : SkinnyParams) (tk : TweakedKey h) (tweak : Option Bytes)
+    (size : Nat) : Nat × TweakedKey h :=
+  if g.setTweak false tweak.isNone (BitVec.ofNat 32 size) then (0, tk)
   else
-    match tweak with
-    | none =>
-      if nullOk then
-        let new := zeros p.bs
-        let ks := xorTk1 o tk.ks tk.tweak
-        .ok (1, { ks := xorTk1 o ks new, tweak := new })
-      else .error .nullDeref
-    | some t =>
-      let new := padRight p.bs (t.take size)
-      let ks := xorTk1 o tk.ks tk.tweak
-      .ok (1, { ks := xorTk1 o ks new, tweak := new })
+    let new := tweakBytes p.bs tweak size
+    let ks := xorTk1 o tk.ks tk.tweak
+    (1, { ks := xorTk1 o ks new, tweak := new })
 
 /-- `skinnyN_ecb_encrypt` -/
 def ecbEncrypt (o : SkinnyOps b h) (p : SkinnyParams) (ks : KeySched h) (input : Bytes) : Bytes :=
